@@ -357,7 +357,8 @@ type Expect struct {
 	// and one begin (e.g. /app Prefix and /app ImplementationSpecific on one host). Which one
 	// answers is left unspecified (C04: "equal length => unspecified"); such requests are not judged.
 	Ambiguous bool     `json:"ambiguous,omitempty"`
-	Kind      string   `json:"kind"` // "servers" | "404" | "redirect"
+	Kind      string   `json:"kind"`              // "servers" | "404" | "redirect"
+	Backend   string   `json:"backend,omitempty"` // id of the backend section that must answer ("" = not stated)
 	Servers   []string `json:"servers"`
 	Via       string   `json:"via"`
 	Decl      *sdecl   `json:"decl,omitempty"`
@@ -420,10 +421,10 @@ func (c *specCl) route(rq Req) Expect {
 	}
 	if c.def != "" {
 		if svc := c.services[c.def]; svc != nil && len(svc.Spec.Ports) > 0 {
-			return Expect{Kind: "servers", Servers: c.servers(svc, &svc.Spec.Ports[0]), Via: "default backend"}
+			return Expect{Kind: "servers", Servers: c.servers(svc, &svc.Spec.Ports[0]), Via: "default backend", Backend: backendID(svc, &svc.Spec.Ports[0])}
 		}
 	}
-	return Expect{Kind: "404", Servers: []string{}, Via: "404"}
+	return Expect{Kind: "404", Servers: []string{}, Via: "404", Backend: "_error404"}
 }
 
 // backendOf names the backend section a declaration leads to.
@@ -443,21 +444,31 @@ func (c *specCl) backendOf(d sdecl) string {
 
 // serve: the servers a selected declaration designates (a strict-host path leads to the default
 // host's root declaration, else to the default backend, else to 404).
+func backendID(svc *api.Service, sp *api.ServicePort) string {
+	return svc.Namespace + "_" + svc.Name + "_" + sp.TargetPort.String()
+}
+
+// agreesB: servers and, when stated, the backend section
+func (e Expect) agreesB(ob Observed) bool {
+	ok, _ := e.agrees(ob)
+	return ok && (e.Backend == "" || ob.Verdict == "redirect" || e.Backend == ob.Backend)
+}
+
 func (c *specCl) serve(d *sdecl, via string) Expect {
 	if d.Strict {
 		if d.Root != nil {
 			svc, sp := c.namedPort(*d.Root)
-			return Expect{Kind: "servers", Servers: c.servers(svc, sp), Via: via + " (strict-host root)", Decl: d}
+			return Expect{Kind: "servers", Servers: c.servers(svc, sp), Via: via + " (strict-host root)", Decl: d, Backend: backendID(svc, sp)}
 		}
 		if c.def != "" {
 			if svc := c.services[c.def]; svc != nil && len(svc.Spec.Ports) > 0 {
-				return Expect{Kind: "servers", Servers: c.servers(svc, &svc.Spec.Ports[0]), Via: via + " (strict-host default backend)", Decl: d}
+				return Expect{Kind: "servers", Servers: c.servers(svc, &svc.Spec.Ports[0]), Via: via + " (strict-host default backend)", Decl: d, Backend: backendID(svc, &svc.Spec.Ports[0])}
 			}
 		}
-		return Expect{Kind: "404", Servers: []string{}, Via: via + " (strict-host 404)", Decl: d}
+		return Expect{Kind: "404", Servers: []string{}, Via: via + " (strict-host 404)", Decl: d, Backend: "_error404"}
 	}
 	svc, sp := c.namedPort(*d)
-	return Expect{Kind: "servers", Servers: c.servers(svc, sp), Via: via, Decl: d}
+	return Expect{Kind: "servers", Servers: c.servers(svc, sp), Via: via, Decl: d, Backend: backendID(svc, sp)}
 }
 
 // servers: ready endpoints of the port; with drain-support not-ready and terminating ones at weight 0.
